@@ -78,6 +78,7 @@ func spec_lookup(act []int, off []int, chk []int, adef []int, gdef []int, nT int
 //@ props C05 C14
 //@ results maxElem
 //@ modifies nothing
+//@ loop 1: order_independent
 
 //@ func (*LALR1).SplitActionAndGotoTable
 //@ props C05
@@ -224,6 +225,7 @@ func spec_cand(l *LALR1, tr Transistor, a *Action, sy int) bool {
 //@ loop 3: invariant forall sy, k int :: has(action_set, sy) && 0 <= k && k < len(action_set[sy]) ==> validAct(lalr, tranlist, action_set[sy][k], sy) && allocated(action_set[sy][k])
 //@ loop 3: invariant unchanged(Action)
 //@ loop 3: decreases len(res)
+//@ loop 2: order_assumed each iteration reads and writes only the candidate list of its own symbol (and allocates); the warning text goes to stdout
 // one fold step: precedence first, yacc defaults otherwise (C04)
 //@ before_stmt [C04] "res[1] = act" spec_sr(res[0], res[1]) && spec_R(res[0], res[1]).Prec != -1 && spec_S(res[0], res[1]).Prec != -1 && spec_R(res[0], res[1]).Prec > spec_S(res[0], res[1]).Prec ==> act == spec_R(res[0], res[1])
 //@ before_stmt [C04] "res[1] = act" spec_sr(res[0], res[1]) && spec_R(res[0], res[1]).Prec != -1 && spec_S(res[0], res[1]).Prec != -1 && spec_R(res[0], res[1]).Prec < spec_S(res[0], res[1]).Prec ==> act == spec_S(res[0], res[1])
@@ -236,3 +238,58 @@ func spec_cand(l *LALR1, tr Transistor, a *Action, sy int) bool {
 //@ before_stmt [C04] "res[1] = act" spec_sr(res[0], res[1]) && (res[0].Prec == -1 || res[1].Prec == -1) ==> act == spec_S(res[0], res[1])
 //@ before_stmt [C04] "res[1] = act" res[0].ActionType == REDUCE && res[1].ActionType == REDUCE && (res[0].Prec == -1 || res[1].Prec == -1) ==>
 //@     (act == res[0] || act == res[1]) && -act.ActionIndex <= -res[0].ActionIndex && -act.ActionIndex <= -res[1].ActionIndex
+
+// ---------------------------------------------------------------------------------------------
+// C14: map iteration order (see /verif/govc/order.go). Every range over a map that is reachable from the
+// generator entry points needs a justification here.
+
+//@ func (*LALR1).ShowDrSet
+//@ props C14
+//@ order_only
+//@ order_exempt prints to stdout (DebugFlags only); does not influence the generated file
+
+//@ func (*LALR1).ShowReadSet
+//@ props C14
+//@ order_only
+//@ order_exempt prints to stdout (DebugFlags only); does not influence the generated file
+
+//@ func (*LALR1).ShowFollowSet
+//@ props C14
+//@ order_only
+//@ order_exempt prints to stdout (DebugFlags only); does not influence the generated file
+
+//@ func (*LALR1).ShowLookAheadSet
+//@ props C14
+//@ order_only
+//@ order_exempt prints to stdout (DebugFlags only); does not influence the generated file
+
+//@ func (*LALR1).CalcReadSet
+//@ props C14
+//@ order_only
+//@ loop 0: order_assumed the order of X only changes Digraph's traversal order; ReadSet is used as a set per key (Digraph-spec hypothesis, bounded)
+
+//@ func (*LALR1).CalcFollowSet
+//@ props C14
+//@ order_only
+//@ loop 0: order_assumed the order of X only changes Digraph's traversal order; FollowSet is used as a set per key (Digraph-spec hypothesis, bounded)
+
+//@ func (*LALR1).CalcAllReadRelations
+//@ props C14
+//@ order_only
+//@ loop 0: order_assumed the relation list is used as a set of pairs by Digraph
+
+//@ func (*LALR1).CaclIncludes
+//@ props C14
+//@ order_only
+//@ loop 0: order_assumed the relation list is used as a set of pairs by Digraph
+
+//@ func (*LALR1).CalcLookbacks
+//@ props C14
+//@ order_only
+//@ loop 1: order_assumed the relation list is used as a set of pairs by Digraph
+
+// each row cell is written once, at its own index
+//@ func (*LALR1).GenTable
+//@ props C14
+//@ order_only
+//@ loop 4: order_independent
